@@ -46,6 +46,11 @@ claim("C14", "exploration", E1,
       "Trusted: the zarrs/arrow/csv readers used for read-back; HashMap iteration order inside the Zarr writers is not owned - each Zarr scenario is repeated 3 (8) times with fresh hash keys, which is repetition, not enumeration; preallocated Zarr rows holding fill values are not counted as stored warmup draws.",
       "bounded-exhaustive scenario enumeration on the real back ends with a recording reference backend (differential oracle)", "4/C14")
 
+claim("C15", "model_checking", E1,
+      "Crash-point enumeration on the real Zarr writers through the storage trait seam: record(warmup)^a record(sample)^b on 1-2 chains x EVERY subset of flush positions x chunk sizes {1, below, equal, above, not dividing} x writers {sync/memory, sync/filesystem, async behind a write gate that holds chunk writes for 0/1/2 operations or until the writer waits}; the store is read by a fresh reader after every record, flush and finalisation: complete right after flush, rows covered by the last flush intact at every later point, complete after finalisation.",
+      "Trusted: the zarrs reader; a crash is the store content at an operation boundary (torn writes inside one key are outside the property); the async completion order is owned at the store seam (hold/release), the polling order of simultaneously runnable tokio tasks is not enumerated; Sampler::flush itself (trace mutex) is exercised under C10-C12 with a model back end.",
+      "exhaustive enumeration of flush-position subsets x crash points x write-completion timings on the real writers, reference = recorded rows", "4/C15")
+
 claim("C19", "exploration", E1,
       "Six presets x default and every single-field substitution over a per-type alphabet (thorough: all pairs): JSON round trip is a fixed point that keeps every field (Debug field list vs JSON keys), and chains built from the round-tripped settings are bit-identical. The trace-metadata clause: the sampler_settings attribute written by the sync and async Zarr writers for every substituted settings value, read back with a fresh reader, equals the settings JSON.",
       "Trusted: serde_json; non-finite floats are outside the quantifier; chains are compared on one 3-d Gaussian for 30 (NUTS) / 10 (MCLMC) draws with a 200k-evaluation watchdog.",
